@@ -802,3 +802,60 @@ class LinkedData(Contract):
                     parts.append(z3.Select(h.arr[k_], r * H.Heap.VEC + j) == z3.Select(arrs0[k_], r * H.Heap.VEC + j))
         out.append(("no existing record is overwritten", z3.ForAll([r], z3.Implies(z3.And(r >= 0, r < h.alloc0), z3.And(*parts)))))
         return out
+
+
+# ---------------------------------------------------------------------------------------------------
+@register
+class TrackTrajectory(Contract):
+    """DropletTrack.get_trajectory(smoothing, attribute=): entry k is that attribute of droplet k (radius / volume as examples); the Gaussian filter
+    is applied exactly when a non-zero smoothing is requested - along the time axis, in place on the NEW array, never on the droplets"""
+    key = f"{TR}:DropletTrack.get_trajectory"
+    modular = False
+
+    def cases(self):
+        return [dict(attribute=a, smoothing=s_) for a in ("radius", "volume") for s_ in ("default", "zero", "positive")]
+
+    def setup(self, run, case):
+        tr = sym_track(run, "self", 2, "SphericalDroplet")
+        drops = tr.fields["droplets"]
+        view = EmView(run, 2, "SphericalDroplet", drops.elems)
+        calls = self.calls = []
+
+        def gf(engine, run2, a, k):
+            calls.append((list(a), dict(k)))
+            run2.trust("ASSUMED (scipy.ndimage.gaussian_filter1d with output=): smooths the given array in place along the given axis")
+            return None
+        models.EXTERNALS["scipy.ndimage.gaussian_filter1d"] = gf
+        a = dict(self=tr, attribute=case["attribute"])
+        self.sm = None
+        if case["smoothing"] == "zero":
+            a["smoothing"] = 0
+        elif case["smoothing"] == "positive":
+            self.sm = run.input_real("smoothing")
+            run.assume(self.sm > 0)
+            a["smoothing"] = self.sm
+        self.ctx = (run, tr, drops, view, snapshot(run), layout_of("SphericalDroplet", 2))
+        return a
+
+    def post(self, a, ret, case):
+        run, tr, drops, view, arrs0, lay = self.ctx
+        k = z3.Int("sk_entry")
+        n = to_z3(drops.length)
+        out = []
+        if not isinstance(ret, SSeq):
+            return [("the trajectory is an array with one entry per droplet of the track", False)]
+        spec = view.radius(k) if case["attribute"] == "radius" else to_real(S.V(2, view.radius(k)))
+        out.append(("the trajectory has one entry per droplet of the track, in order: entry k is the requested attribute of droplet k",
+                    z3.And(to_z3(ret.length) == n, z3.Implies(z3.And(k >= 0, k < n), to_real(ret.at(k)) == spec))))
+        if case["smoothing"] == "positive":
+            ok = len(self.calls) == 1
+            out.append(("a non-zero smoothing applies one Gaussian filter", ok))
+            if ok:
+                args, kw = self.calls[0]
+                out.append(("... to the trajectory array itself, in place (output is the same array), with the requested width, along the time axis, "
+                            "edges extended by the nearest value",
+                            args[:1] == [ret] and kw.get("output") is ret and kw.get("sigma") is self.sm and kw.get("axis") == 0 and kw.get("mode") == "nearest"))
+        else:
+            out.append(("without smoothing (the default, or 0) no filter is applied", not self.calls))
+        out.append(("the droplets of the track are not modified", frame_old_records(run, arrs0, lay)))
+        return out
